@@ -269,7 +269,10 @@ PROPS["C16"] = {
     "sensitivity": [{"base": "docs-quick", "flip": {"RemoveClearsHeads": "FALSE"}},
                     {"base": "docs-quick", "flip": {"RemoveClearsSettings": "FALSE"}},
                     {"base": "docs-quick", "flip": {"RemoveUpperBound": "FALSE"}}],
-    "drives": [docs_drive("C16")],
+    "drives": [docs_drive("C16"),
+               # the GC-protection handshake of a real Engine: protected set = hashes held; no complete set => Abort
+               {"name": "protect", "cmd": "protect", "args": {"n": {"quick": 40, "thorough": 1500}},
+                "trace_module": "ProtectTrace", "trace_consts": {}, "tv_timeout": 1800}],
 }
 PROPS["C17"] = {
     "level": "model_checking",
